@@ -9,7 +9,7 @@ from common import Inconclusive, log
 PLANS = {
     "C01": [("base", 250, 6000), ("quit", 120, 2500), ("errors", 60, 1500)],
     "C03": [("churn", 250, 6000), ("timeout", 80, 2000), ("bclose", 80, 2000)],
-    "C07": [("base", 200, 5000), ("fwdonly", 200, 5000)],
+    "C07": [("base", 200, 5000), ("fwdonly", 150, 4000), ("errors", 150, 4000)],
     "C09": [("gate", 250, 6000), ("fwdonly", 150, 4000)],
     "C10": [("base", 200, 5000), ("fwdonly", 200, 5000)],
     "C11": [("errors", 400, 10000)],
